@@ -294,6 +294,12 @@ func c14Cases(quick bool) []c14Case {
 	add("shard-empty", shard(nil), false, "map", []int{0})
 	add("shard-empty-fanout1024", shard(func(d *pb.Data) { d.Fanout = u64p(1024) }), false, "map", []int{0})
 	add("shard-zero-bitfield", shard(func(d *pb.Data) { d.Data = []byte{0} }), false, "map", []int{0})
+	// an empty sharded directory as the reference implementation writes it: no
+	// bitfield field at all (nothing to index), at every permitted fanout
+	for _, f := range []uint64{8, 16, 32, 64, 128, 256, 512, 1024} {
+		f := f
+		add(fmt.Sprintf("shard-empty-no-bitfield-fanout%d", f), shard(func(d *pb.Data) { d.Data = nil; d.Fanout = u64p(f) }), false, "map", []int{0})
+	}
 	for _, t := range []int32{6, 7, 100} {
 		add(fmt.Sprintf("unknown-type-%d", t), fsData(t, nil), false, "error", all)
 	}
